@@ -5,6 +5,7 @@ CONSTANTS
   RawToo = TRUE
   SeedIds = {0, 1, 2, 3, 4}
   Subjects = {1, 2}
+  Pick = FALSE
 SPECIFICATION Spec
 INVARIANT Emit
 CONSTRAINT Small
